@@ -371,7 +371,7 @@ class Harness:
         """coarse description of a counterexample used to key known findings"""
         return clause
 
-    deadline_quick = 900
+    deadline_quick = 1800
     deadline_thorough = 2700
 
     def bounds_text(self, tier):
